@@ -18,6 +18,7 @@ import common
 import coreops
 import fbagen
 import lpcert
+import auxcorr
 
 logging.disable(logging.CRITICAL)
 common.ensure_repo_on_path()
@@ -292,6 +293,23 @@ def gen_case(rng):
             "loopless": rng.random() < 0.3}
 
 
+def aux_stage(ctx):
+    """Every problem `_fva_step` hands to GLPK vs `AuxM.Net.fvaStep`; returns oracle cases on the models where they differ."""
+    def f_fva(make, spec, rng):
+        m = make()
+        rids = [r.id for r in m.reactions]
+        sub = rng.sample(rids, rng.randint(1, len(rids))) if rng.random() < 0.5 else None
+        return auxcorr.pairs_fva(m, rng.choice([1.0, 0.5, 0.9, 0.0, 0.25]), pfba_factor=rng.choice([None, None, 1.0, 1.1, 2.0]), reaction_list=sub)
+    mism = auxcorr.stage(ctx, [("flux_variability_analysis", f_fva)], gen_bounded_spec, ctx.scale(40, 600))
+    cases = []
+    for mm in mism[:5]:
+        rids = [r["id"] for r in mm["spec"]["rxns"]]
+        for fr in ("1", "1/2", "0"):
+            for pf in (None, "2"):
+                cases.append({"spec": mm["spec"], "fraction": fr, "pfba_factor": pf, "reactions": rids, "as_objects": False, "loopless": False})
+    return cases
+
+
 def run(ctx):
     if getattr(ctx, "replay", None):
         data = json.loads(open(ctx.replay).read())
@@ -304,7 +322,8 @@ def run(ctx):
                 return 1
         return 0
     common.proof_stage(ctx, "CobraModel.Props.C05", extra_scan=["CobraModel/Lemmas/Formulations.lean", "CobraModel/Model/Formulations.lean",
-                                                                "CobraModel/Lemmas/LP.lean", "CobraModel/Model/LP.lean"])
+                                                                "CobraModel/Lemmas/LP.lean", "CobraModel/Model/LP.lean"] + auxcorr.SCAN)
+    directed = aux_stage(ctx)
     rng = ctx.rng
     n = ctx.scale(250, 5000)
     ran = 0
@@ -313,7 +332,7 @@ def run(ctx):
     samples = []
     opts = {"fraction": {}, "pfba": {}, "loopless": 0}
     tries = 0
-    corpus = common.load_corpus("C05")
+    corpus = directed + common.load_corpus("C05")
     while ran < n and tries < n * 4 and not ctx.violations:
         batch = [gen_case(rng) for _ in range(min(60, n - ran + 5))]
         if corpus:
